@@ -17,7 +17,7 @@ VARIABLES obj, file, fileValid, doc, docJson, df, hist
 \* the catalogs of the bounded model: event identities 1..6 stand for typed field-class combinations (harness table)
 O(e, c, n, r) == [evs |-> e, cid |-> c, name |-> n, region |-> r]
 CatsQ == { O(<<>>, 3, 1, FALSE), O(<<>>, -1, -1, TRUE), O(<<1>>, 0, 1, TRUE), O(<<2, 3>>, 7, -1, FALSE),
-           O(<<4, 5, 6>>, -1, 1, TRUE), O(<<6, 1, 4, 2>>, 12, 1, FALSE), O(<<3, 3>>, 5, -1, TRUE) }
+           O(<<4, 5, 6>>, -1, 1, TRUE), O(<<6, 1, 4, 2>>, 12, 1, FALSE), O(<<3, 3>>, -4, -1, TRUE) }
 
 vars == <<obj, file, fileValid, doc, docJson, df, hist>>
 
